@@ -477,6 +477,14 @@ def _logout_impl(c):
     except Exception as e:
         o["confirm"] = "failed:" + type(e).__name__
     o["after"] = R.op_safe(["userinfo", at])[0]
+    # the same user logs in again at the same client on whichever instance is now live: the subject identifier is the one from before
+    try:
+        subs0 = sorted({g.sub for g, path in R.gobj.values()})
+        r2 = R.op(["authorize", "diana", "client_3", ["openid"], red])
+        subs1 = sorted({g.sub for g, path in R.gobj.values() if path[:2] == ["diana", "client_3"]})
+        o["subs"] = [subs0, subs1]
+    except Exception as e:
+        o["subs"] = None
     o["r"] = "ok"
     return o
 
@@ -637,6 +645,8 @@ def oracle(c, obs):
             return [{"cls": "pending-logout-lost", "crash": c["crash"], "stage": "begin", "why": obs.get("why")}]
         if obs["before"] != "userinfo":
             return v
+        if obs.get("subs") and len(set(obs["subs"][1])) > 1:
+            v.append({"cls": "subject-changes-across-restore", "crash": c["crash"], "mode": c["mode"], "keys": c["keys"]})
         if obs["confirm"] != "ok" or obs["after"] == "userinfo":
             v.append({"cls": "pending-logout-lost", "crash": c["crash"], "mode": c["mode"], "keys": c["keys"], "confirm": obs["confirm"], "token_still_honoured": obs["after"] == "userinfo"})
         return v
